@@ -405,6 +405,10 @@ PASS_PROPS = {
 }
 
 
+# passes that build a DomainPredicates object from the program handed to their constructor
+DOMAIN_USERS = ("InlineTranslator", "LiteralDuplicationTranslator", "MinMaxAggregator", "SumAggregator", "SymmetryTranslator")
+
+
 def _api_pass(cname: str):  # type: ignore[no-untyped-def]
     def run(ck: Checker) -> None:
         func = ck.func("api:optimize")
@@ -426,7 +430,7 @@ def _api_pass(cname: str):  # type: ignore[no-untyped-def]
             if "output_predicates" in params:
                 ck.add(f"{cname}(output_predicates=...)", bound.get("output_predicates") == p_out, func, call, f"constructor parameter output_predicates is bound to `{bound.get('output_predicates')}`", "outputs must be protected from removal")
             if "prg" in params:
-                ck.add(f"{cname}(prg=...)", bound.get("prg") == "input_", func, call, f"analysed program is `{bound.get('prg')}`", "a pass must analyse the program it rewrites (the current pipeline value)")
+                ck.add(f"{cname}(prg=...)", bound.get("prg") == "input_", func, call, f"analysed program is `{bound.get('prg')}`", "a pass must analyse the program it rewrites (the current pipeline value): analyses of the raw or of an earlier program name predicates and shapes that the rewritten program no longer has (assertions fail, domain rules refer to predicates nobody defines)")
             ck.add(f"{cname} is constructed anew in every round", enclosing_loop(func, call) is not None, func, call, f"constructor call inside the `while` loop: {enclosing_loop(func, call) is not None}",
                    "translators accumulate state (known implications, usage, names) that is only valid for the program of that round: reusing one across rounds applies stale facts to a changed program")
         ck.add(f"{cname} is part of the pipeline", found, func, func.node, f"constructor call found: {found}", "", nontrivial=False)
@@ -467,4 +471,5 @@ RULES = [
     Rule("C02.TABLE.unify", ("C02", "C13", "C12", "C15", "C01"), r_unify_table),
     Rule("C02.minimize-terms", ("C02", "C05", "C01"), r_minimize_terms),
     Rule("C01.api-interface", ("C01",), r_api_interface),
-] + [Rule(f"C01.api.{cname}", ("C01", prop) + (("C07",) if cname == "UnusedTranslator" else ()), _api_pass(cname)) for cname, prop in PASS_PROPS.items()]
+] + [Rule(f"C01.api.{cname}", ("C01", prop) + (("C07",) if cname == "UnusedTranslator" else ()), _api_pass(cname),
+         extra={"C03": ("(prg=...)",), **({"C20": ("(prg=...)",)} if cname in DOMAIN_USERS else {})}) for cname, prop in PASS_PROPS.items()]
